@@ -21,6 +21,7 @@ func main() {
 	vdir := fs.String("verif", "/verif", "verification directory")
 	only := fs.String("f", "", "restrict to functions whose key contains this")
 	keep := fs.Bool("keep", false, "keep query files")
+	evdir := fs.String("evidence", "", "directory for evidence files (default <verif>/evidence)")
 	verbose := fs.Bool("v", false, "verbose")
 	fs.Parse(os.Args[2:])
 	if *tier == "" {
@@ -32,7 +33,7 @@ func main() {
 	seed, _ := strconv.ParseInt(os.Getenv("VERIF_SEED"), 10, 64)
 	switch cmd {
 	case "check":
-		os.Exit(runCheck(checkOpts{prop: *prop, tier: *tier, repo: *repo, verifDir: *vdir, seed: seed, only: *only, keep: *keep, verbose: *verbose}))
+		os.Exit(runCheck(checkOpts{prop: *prop, tier: *tier, repo: *repo, verifDir: *vdir, seed: seed, only: *only, keep: *keep, verbose: *verbose, evidenceDir: *evdir}))
 	case "list":
 		eng, err := loadEngine(*repo, *vdir)
 		if err != nil {
